@@ -9,6 +9,7 @@ from .. import terms as TM
 from ..absint import Interp, Unsupported
 from ..core import Report, Repo
 from ..values import BOTTOM, Obj, T, TV, fmt
+from ..schemas import P
 from .fmtcommon import ABSMAX, DOWNSCALE, E, FM, M, MASK, MIN_NORMAL, canon, mkformat, ref_term, run_quantise
 
 
@@ -22,8 +23,8 @@ def common_pipeline_checks(report: Report, events, it, cons: str, label: str) ->
             report.add("R1-dtype-typestate", f"{cons}::view(int32)", ok, f"{label}: .view(torch.int32) reinterprets bits, so its receiver must be float32 on every path (receiver dtype: {frm}); a float64/bfloat16/float16 argument would change element count", str(frm), "torch.float32", where=e.where)
         elif to == "torch.float32":
             report.add("R1-dtype-typestate", f"{cons}::view(float32)", frm == "torch.int32", f"{label}: .view(torch.float32) must reinterpret the int32 pattern", str(frm), "torch.int32", where=e.where, nontrivial=False)
-    ncast = len({(str(e["to_dtype"]), e.where) for e in casts})
-    report.add("R1-dtype-typestate", f"{cons}::bitcasts", ncast == 2, f"{label}: exactly one int32 view and one float32 view", ncast, 2, nontrivial=False)
+    kinds = {str(e["to_dtype"]) for e in casts}
+    report.add("R1-dtype-typestate", f"{cons}::bitcasts", {"torch.int32", "torch.float32"} <= kinds, f"{label}: the pipeline reinterprets to int32 and back to float32", sorted(kinds), ["torch.float32", "torch.int32"], nontrivial=False)
     # R2 argument not modified
     bad = [e for e in events if e.kind == "inplace" and e.get("alias")]
     report.add("R2-no-mutation", f"{cons}::inplace", not bad, f"{label}: no in-place operation on a value that may alias the argument" + ("; offending: " + ", ".join(f"{e['op']} at {e.where}" for e in bad) if bad else ""), [e["op"] for e in bad], "none")
@@ -93,4 +94,30 @@ def check(report: Report, repo: Repo) -> None:
         report.add("R6-range", f"{FM}::FPFormat.min_absolute_subnormal", TM.expr_equal(ms, sp.sympify(mn) * sp.Integer(2) ** (-M)), "min subnormal == min normal * 2^-M", fmt(ms), fmt(MIN_NORMAL * 2 ** (-M)))
     except Unsupported as ex:
         report.add("R6-range", f"{FM}::FPFormat", None, f"outside fragment: {ex}")
+    # R7 history on one (mutable) format object: use it, re-assign a field, use it again -- everything derived from
+    # the fields must describe the format the object is *now* (no value cached across the re-assignment)
+    for hname, (e0, m0), (e1, m1) in (("mantissa_bits 2 -> 3", (4, 2), (4, 3)), ("exponent_bits 4 -> 3", (4, 1), (3, 1))):
+        it = Interp(repo)
+        fo = mkformat(it, "nearest", 0, sp.Integer(e0), sp.Integer(m0))
+        q = it.class_attr(fo.cls, "quantise")
+        try:
+            for pn in ("max_absolute_value", "min_absolute_normal", "min_absolute_subnormal", "bits"):
+                it.getattr(fo, pn)
+            it.call_function(q, [fo, P("x", None)], {})
+            fo.attrs["exponent_bits"], fo.attrs["mantissa_bits"] = sp.Integer(e1), sp.Integer(m1)
+            sub = {E: e1, M: m1}
+            mx = it.getattr(fo, "max_absolute_value")
+            ms = it.getattr(fo, "min_absolute_subnormal")
+            report.add("R7-history", f"{FM}::FPFormat.max_absolute_value", TM.expr_equal(mx, ABSMAX.subs(sub)), f"after re-assigning {hname} on a used format object, max_absolute_value describes the new format", fmt(mx), fmt(ABSMAX.subs(sub)))
+            report.add("R7-history", f"{FM}::FPFormat.min_absolute_subnormal", TM.expr_equal(ms, (MIN_NORMAL * 2 ** (-M)).subs(sub)), f"after re-assigning {hname}, min_absolute_subnormal describes the new format", fmt(ms), fmt((MIN_NORMAL * 2 ** (-M)).subs(sub)))
+            res = it.call_function(q, [fo, P("x", None)], {})
+            got = canon(TM.normalize(TM.term_of(res)))
+            mask = MASK.subs(sub)
+            oks = [TM.term_equal(got, canon(TM.normalize(TM.term_of(ref_term(it, "nearest", 0, off, e1, m1))))) for off in (sp.floor(sp.Rational(1, 2) * mask), sp.ceiling(sp.Rational(1, 2) * mask))]
+            report.add("R7-history", f"{cons}::return", True if True in oks else (None if None in oks else False), f"after re-assigning {hname}, quantise is the reference pipeline of the new format", fmt(got)[:300], "reference pipeline of the new format")
+        except Unsupported as ex:
+            report.add("R7-history", cons, None, f"{hname}: outside fragment: {ex}")
+    from .c15 import check_per_format
+
+    check_per_format(report, repo, "R7-history")
     report.floor("quantise evaluations", n, 1 if report.tier == "quick" else 150)
